@@ -228,7 +228,11 @@ def gen_link(rng, blocks, opts):
     # replace: change an attribute that is never used for matching (charge / mass), or remove the atom
     if rng.random() < opts.get("p_replace", 0.15):
         key = rng.choice(sorted(latoms))
-        latoms[key]["replace"] = {rng.choice(["charge", "mass"]): rng.choice([0.125, 1.5, 99.0])}
+        if opts.get("replace_atype") and rng.random() < 0.7:
+            # an atom type is replaced: other links that select this atom by its type still go by the type the block gave it
+            latoms[key]["replace"] = {"atype": rng.choice(ATYPES[:3])}
+        else:
+            latoms[key]["replace"] = {rng.choice(["charge", "mass"]): rng.choice([0.125, 1.5, 99.0])}
     if rng.random() < opts.get("p_remove", 0.0):
         cands = [k for k in sorted(latoms) if k not in {a for it in inter for a in it["atoms"]}]
         # removal of an extra atom that is listed in [ atoms ] only
